@@ -6,6 +6,7 @@ SPECS = [
     ("atsp", "ATSP"), ("pdp", "PDP"), ("op", "OP"), ("op", "OPBoundary"),
     ("cvrptw", "CVRPTW"), ("svrp", "SVRP"), ("pctsp", "PCTSP"), ("pctsp", "PCTSPReq"), ("spctsp", "SPCTSP"), ("sdvrp", "SDVRP"),
     ("mtvrp", "MTVRP"), ("fjsp", "FJSP"), ("fjsp", "JSSP"),
+    ("mpdp", "MPDPStart"),
     ("mtsp", "MTSP"), ("mdcpdp", "MDCPDP"), ("mdcpdp", "MDCPDPGen"), ("mdcpdp", "MDCPDPHet"),
     ("smtwtp", "SMTWTP"), ("ffsp", "FFSP"), ("ffsp", "FFSPNoFlatten"),
     ("flp", "FLP"), ("flp", "FLPFull"), ("mcp", "MCP"), ("mcp", "MCPFull"), ("dpp", "DPP"), ("dpp", "MDPP"),
